@@ -19,6 +19,18 @@ Fail(name, ok) == IF ok THEN {} ELSE {name}
 TipEdgeIds(T, V)   == {e \in EdgeIds(T) : T.E[e].r \in V.tips}
 InnerEdgeIds(T, V) == EdgeIds(T) \ TipEdgeIds(T, V)
 
+TraversalOK(T, V, seq, parentFirst) ==
+  LET n   == Len(seq)
+      pos == [x \in NodeIds(T) |-> IF \E i \in 1..n : seq[i][1] = x THEN CHOOSE i \in 1..n : seq[i][1] = x ELSE 0]
+  IN  /\ n = Cardinality(NodeIds(T))
+      /\ {seq[i][1] : i \in 1..n} = NodeIds(T)
+      /\ \A i \in 1..n :
+            LET x == seq[i][1]
+            IN  IF x = T.root THEN seq[i][2] = 0 /\ seq[i][3] = 0
+                ELSE /\ seq[i][2] = V.par[x]
+                     /\ seq[i][3] = V.br[x].id
+                     /\ IF parentFirst THEN pos[V.par[x]] < i ELSE pos[V.par[x]] > i
+
 F_Enum(T, V, en) ==
      Fail("EnumNodes",    NoDupSeq(en.nodes) /\ SeqRange(en.nodes) = NodeIds(T))
   \cup Fail("EnumTips",     NoDupSeq(en.tips) /\ SeqRange(en.tips) = V.tips)
@@ -29,6 +41,12 @@ F_Enum(T, V, en) ==
   \cup Fail("EnumNames",    Len(en.names) = Len(en.tips) /\ SeqRange(en.names) = V.names
                             /\ SeqRange(en.sorted) = V.tips /\ NoDupSeq(en.sorted))
   \cup Fail("EnumRooted",   en.rooted = (RootDeg(V) = 2))
+  \* Tree.PreOrder / Tree.PostOrder: every node once, with its parent and the branch above it; a node before (after) its parent
+  \cup Fail("EnumPreOrder",  TraversalOK(T, V, en.pre, TRUE))
+  \cup Fail("EnumPostOrder", TraversalOK(T, V, en.post, FALSE))
+  \* a call-back answering false ends the traversal at once
+  \cup Fail("EnumTraversalStops", LET k == IF en.stopat < Cardinality(NodeIds(T)) THEN en.stopat ELSE Cardinality(NodeIds(T))
+                                  IN  en.prestop = k /\ en.poststop = k)
 
 (* C03: the Newick text (read back by the reference reader into X) describes exactly the structure *)
 KidsOf(T, V, n) == IF n = T.root THEN T.N[n].nb
